@@ -31,6 +31,7 @@ THEOREMS = [
     "Nix.C04.delete_refused",
     "Nix.C04.delete_ids_self",
     "Nix.C04.subtree_complete",
+    "Nix.C04.subtree_complete_of_done",
     "Nix.C04.delete_gone",
     "Nix.C04.delete_owned_unreachable",
     "Nix.C04.delete_others_stay",
@@ -46,7 +47,9 @@ ASSUMPTIONS = [
     "every reference nixio keeps to an entity is an HDF5 hard link (owning container entry, link-list entry, role "
     "link); h5py's visititems reaches every group reachable from '/' (modelled: delete_all filters every link list)",
     "subtree_complete: the section / source hierarchy below the deleted entity is a finite forest of at most "
-    "|nodes|^2+1 entities (the breadth-first id collection of the model is fuel-based; API-built files satisfy it)",
+    "|nodes|^2+1 entities (the breadth-first id collection of the model is fuel-based; API-built files satisfy it); "
+    "subtree_complete_of_done replaces it by the decidable 'the collection ended with an empty queue', which the "
+    "model driver evaluates (op fuel_ok) before every section / source deletion of the correspondence runs",
     "frame at full strength (only links to the deleted object disappear) holds only when no other object shares the "
     "entity_id: false after an id-keeping copy (open finding C04-delete-hits-same-id-copy; frame_partial + "
     "frame_counterexample); proved at full strength for every history of the model's Op language (which has no "
@@ -75,6 +78,7 @@ MANIFEST = {
 }
 
 KNOWN_CLASS = "delete-hits-same-id-copy"
+QUERIES = ("get", "has", "len", "list", "role", "dump", "noop", "reset", "fuel_ok")
 
 
 # =======================================================================================
@@ -260,6 +264,11 @@ class DelGen(storegen.Gen):
         else:
             key, how = {"o": e.path}, "object"
         self.count("delete %s by %s" % (e.kind, how))
+        if e.kind in ("section", "source"):
+            # model-only question: does the breadth-first id collection finish within the model's fuel? (hypothesis
+            # of Nix.C04.subtree_complete_of_done; on the implementation find_sections/find_sources simply terminate)
+            self.ops.append(["fuel_ok", owner_path, cname, key])
+            self.outs.append({"ok": True})
         self.do(["del", owner_path, cname, key])
         self.do(["list", owner_path, cname])
         if e.name is not None and not storegen.real_uuid(e.name):
@@ -349,7 +358,7 @@ def run_script(ctx, ops, tag):
 
 
 def correspondence(ctx):
-    n_hist = ctx.budget(7, 80)
+    n_hist = ctx.budget(14, 120)
     steps = ctx.budget(75, 110)
     build = ctx.budget(30, 40)
     disagreements = []
@@ -371,7 +380,7 @@ def correspondence(ctx):
         ops, outs, tl = run_history(ctx, rng, steps, build, "h%d" % h, reopen_prob=0.03)
         model = core.run_driver(PROP, [["reset"]] + ops)[1:]
         for k, op, m, i in storegen.compare(ops, outs, model):
-            muts = [o for o in ops[:k + 1] if o[0] not in ("get", "has", "len", "list", "role", "dump", "noop")]
+            muts = [o for o in ops[:k + 1] if o[0] not in QUERIES]
             disagreements.append(Disagreement({"history": h, "index": k, "op": op,
                                                "prefix": muts + ([op] if op[0] in ("dump", "list", "role") else [])},
                                               m, i))
@@ -835,7 +844,7 @@ def check_script(ctx, ops, tag):
     ck = Checker(impl)
     try:
         for op in ops:
-            if op[0] in ("get", "has", "len", "list", "role", "dump", "noop", "reset"):
+            if op[0] in QUERIES:
                 continue
             out = ck.run(op)
             if "bad" in out:
@@ -881,6 +890,25 @@ def check_random(ctx, rng, steps, build, tag):
     return ck
 
 
+def shrink(ctx, f, budget=150):
+    """greedy one-op-at-a-time reduction of a failing script (same failure site must reproduce)"""
+    ops = list(f.input)
+    best = f
+    runs = 0
+    i = len(ops) - 2            # the last op is the failing call
+    while i >= 0 and runs < budget:
+        trial = ops[:i] + ops[i + 1:]
+        ck = check_script(ctx, trial, "shrink")
+        runs += 1
+        hit = [x for x in ck.failures if x.site == f.site]
+        if hit and len(hit[0].input) <= len(trial):
+            ops = list(hit[0].input)
+            best = hit[0]
+            i = min(i, len(ops) - 1)
+        i -= 1
+    return best
+
+
 def _dedup(failures):
     best = {}
     for f in failures:
@@ -908,14 +936,19 @@ def oracle(ctx, broken, hints):
     for i, h in enumerate(hints[:8]):
         if isinstance(h, dict) and h.get("prefix"):
             take(check_script(ctx, h["prefix"], "hint%d" % i))
-    n = ctx.budget(4, 40) * (4 if broken else 1)
+    n = ctx.budget(8, 60) * (4 if broken else 1)
     steps = ctx.budget(70, 100)
     for k in range(n):
         rng = random.Random("C04-oracle/%d/%d" % (ctx.seed, k))
         take(check_random(ctx, rng, steps, ctx.budget(30, 40), "r%d" % k))
         if len([f for f in failures if f.site != KNOWN_CLASS]) > 8:
             break
-    return {"evaluations": evals, "failures": _dedup(failures), "scenarios": n, "checked": kinds}
+    out = _dedup(failures)
+    fresh = [f for f in out if f.site != KNOWN_CLASS]
+    if fresh:       # minimise the first new failure: it becomes the replay file
+        small = shrink(ctx, fresh[0])
+        out = [small] + [f for f in out if f is not fresh[0]]
+    return {"evaluations": evals, "failures": out, "scenarios": n, "checked": kinds}
 
 
 def matches_known(entry, failure):
